@@ -97,6 +97,82 @@ pub fn long_range_pairs(thorough: bool) -> Vec<(String, String)> {
     out
 }
 
+/// Structured pairs of LONG ranges (up to 300 segments): `b` is derived from `a` by a local edit, so that the
+/// two share long prefixes, `b` is a (non-)subset with several pieces inside one segment of `a`, the lengths
+/// differ by a factor of 16 and more, … — the shapes at which length-dependent fast paths (binary search,
+/// block-wise comparison, skipping) part from the plain sweeps.  Bound values follow the odd / even convention.
+/// Wide segment i of `a` is [16i+1, 16i+13] (pattern 0), (16i+1, 16i+13) (1), [16i+1, 16i+13) (2).
+pub fn derived_long_pairs(thorough: bool) -> Vec<(String, String)> {
+    let lens: &[usize] = if thorough {
+        &[7, 8, 9, 15, 16, 17, 31, 32, 33, 47, 48, 63, 64, 65, 96, 127, 128, 129, 160, 255, 256, 257, 300]
+    } else {
+        &[8, 16, 17, 32, 33, 64, 65, 128, 129, 257]
+    };
+    let seg = |pattern: usize, i: usize| -> String {
+        let a = 16 * i + 1;
+        match pattern {
+            0 => format!("i{}:i{}", a, a + 12),
+            1 => format!("e{}:e{}", a, a + 12),
+            _ => format!("i{}:e{}", a, a + 12),
+        }
+    };
+    let sub = |i: usize, k: usize| -> String {
+        // k-th small piece strictly inside wide segment i
+        let a = 16 * i + 3 + 4 * k;
+        format!("i{}:i{}", a, a)
+    };
+    let mut out = vec![];
+    for (li, &n) in lens.iter().enumerate() {
+        let pattern = li % 3;
+        let a: Vec<String> = (0..n).map(|i| seg(pattern, i)).collect();
+        let a_s = a.join(" ");
+        let mut bs: Vec<String> = vec![];
+        // prefixes, prefix + last, prefix + changed segment + rest
+        for m in [1usize, n / 2, 31, 32, 33, n - 1] {
+            if m == 0 || m >= n {
+                continue;
+            }
+            bs.push(a[..m].join(" "));
+            bs.push(format!("{} {}", a[..m].join(" "), a[n - 1]));
+            let changed = format!("i{}:i{}", 16 * m + 1, 16 * m + 5);
+            let mut v: Vec<String> = a[..m].to_vec();
+            v.push(changed);
+            v.extend_from_slice(&a[m + 1..]);
+            bs.push(v.join(" "));
+            // one segment removed
+            let mut v: Vec<String> = a[..m].to_vec();
+            v.extend_from_slice(&a[m + 1..]);
+            bs.push(v.join(" "));
+        }
+        // several small pieces inside ONE segment, inside several segments, one piece sticking out
+        for j in [0usize, n / 2, n - 1] {
+            bs.push(format!("{} {}", sub(j, 0), sub(j, 1)));
+            bs.push(format!("{} {} {}", sub(j, 0), sub(j, 1), sub(j, 2)));
+            bs.push(format!("{} i{}:i{}", sub(j, 0), 16 * j + 11, 16 * j + 15));
+        }
+        if n >= 3 {
+            bs.push(format!("{} {} {}", sub(0, 0), sub(n / 2, 1), sub(n - 1, 2)));
+            bs.push(format!("{} {} {} {}", sub(0, 0), sub(0, 2), sub(n - 1, 0), sub(n - 1, 1)));
+        }
+        // every 2nd / every 16th / every 17th segment; the same with pieces
+        for step in [2usize, 16, 17] {
+            let v: Vec<String> = (0..n).step_by(step).map(|i| a[i].clone()).collect();
+            bs.push(v.join(" "));
+            let v: Vec<String> = (0..n).step_by(step).map(|i| format!("{} {}", sub(i, 0), sub(i, 2))).collect();
+            bs.push(v.join(" "));
+        }
+        // shifted copy (every segment overlaps two), and the gaps (the complement's inner part)
+        bs.push((0..n).map(|i| format!("i{}:i{}", 16 * i + 9, 16 * i + 19)).collect::<Vec<_>>().join(" "));
+        bs.push((0..n).map(|i| format!("i{}:i{}", 16 * i + 15, 16 * i + 15)).collect::<Vec<_>>().join(" "));
+        for b in bs {
+            out.push((a_s.clone(), b.clone()));
+            out.push((b, a_s.clone()));
+        }
+        out.push((a_s.clone(), a_s.clone()));
+    }
+    out
+}
+
 pub fn gen_c10(sink: &mut Sink, thorough: bool, seed: u64) {
     let mut rng = Rng::new(seed);
     let pairs = long_range_pairs(thorough);
@@ -107,6 +183,11 @@ pub fn gen_c10(sink: &mut Sink, thorough: bool, seed: u64) {
         sink.push(eval_line(&format!("run|{}", a)));
     }
     sink.notes.push(format!("{} pairs of a long range (15..65 segments, 4 patterns) with a short range anchored at every kind of coincidence with its bounds", pairs.len()));
+    let derived = derived_long_pairs(thorough);
+    for (a, b) in &derived {
+        sink.push(eval_line(&format!("rbin|{}|{}", a, b)));
+    }
+    sink.notes.push(format!("{} structured pairs of long ranges (8..300 segments): shared prefixes, removed / changed segments, several pieces inside one segment, length ratios of 16 and more, shifted copies", derived.len()));
     for (kind, v1, v2) in [
         ("empty", 0, 0), ("full", 0, 0), ("singleton", 3, 0), ("higher_than", 3, 0),
         ("strictly_higher_than", 3, 0), ("lower_than", 3, 0), ("strictly_lower_than", 3, 0),
@@ -162,6 +243,27 @@ pub fn gen_c15(sink: &mut Sink, thorough: bool, seed: u64) {
         "exhaustive: 128 canonical ranges over 3 bound values x all {} sorted version sequences (with repeats) over the doubled grid 0..=6",
         seqs.len()
     ));
+    // long ranges against long version lists (a length threshold in contains_many / simplify shows)
+    let mut n_long = 0;
+    for (i, (a, b)) in derived_long_pairs(thorough).iter().enumerate() {
+        if i % 4 != 0 {
+            continue;
+        }
+        // the versions: every bound value of the other range and its neighbours, thinned out in three ways
+        let mut vs: Vec<u32> = vec![];
+        for tok in b.split(|c: char| !c.is_ascii_digit()).filter(|t| !t.is_empty()) {
+            if let Ok(v) = tok.parse::<u32>() {
+                vs.extend_from_slice(&[v.saturating_sub(1), v, v + 1]);
+            }
+        }
+        vs.sort();
+        for keep in [1usize, 3, 7] {
+            let sel: Vec<u32> = vs.iter().cloned().step_by(keep).take(900).collect();
+            sink.push(eval_line(&format!("rvs|{}|{}", a, fmt_versions(&sel))));
+            n_long += 1;
+        }
+    }
+    sink.notes.push(format!("{} long ranges (8..300 segments) against version lists of up to 900 entries on and next to the bounds", n_long));
     let bs = ["u", "i1", "e1", "i3", "e3", "i5", "e5"];
     for s in bs {
         for e in bs {
@@ -188,6 +290,19 @@ pub fn gen_c16(sink: &mut Sink, thorough: bool, seed: u64) {
             sink.push(eval_line(&format!("rbin|{}|{}", a, b)));
         }
     }
+    let derived = derived_long_pairs(thorough);
+    for (a, b) in &derived {
+        sink.push(eval_line(&format!("rbin|{}|{}", a, b)));
+    }
+    // transitivity on long ranges: triples of ranges derived from the same long range
+    for w in derived.chunks(6) {
+        if w.len() == 6 {
+            sink.push(eval_line(&format!("rcmp3|{}|{}|{}", w[0].1, w[2].1, w[4].1)));
+            sink.push(eval_line(&format!("rcmp3|{}|{}|{}", w[4].1, w[0].0, w[2].1)));
+            sink.push(eval_line(&format!("rcmp3|{}|{}|{}", w[2].1, w[4].1, w[0].1)));
+        }
+    }
+    sink.notes.push(format!("{} structured pairs of long ranges (8..300 segments, long shared prefixes) and triples of them", derived.len()));
     let r3 = all_ranges(3);
     for a in &r3 {
         for b in &r3 {
@@ -236,6 +351,14 @@ pub fn gen_c11(sink: &mut Sink, thorough: bool, seed: u64) {
             sink.push(eval_line(&format!("term2|{}{}|{}{}", sa, a, sb, b)));
         }
     }
+    let derived = derived_long_pairs(thorough);
+    for (i, (a, b)) in derived.iter().enumerate() {
+        let signs: &[(&str, &str)] = if i % 3 == 0 { &[("+", "+"), ("~", "~")] } else if i % 3 == 1 { &[("+", "~")] } else { &[("~", "+"), ("+", "+")] };
+        for (sa, sb) in signs {
+            sink.push(eval_line(&format!("term2|{}{}|{}{}", sa, a, sb, b)));
+        }
+    }
+    sink.notes.push(format!("{} structured pairs of long ranges (8..300 segments) as term pairs", derived.len()));
     let k = 3;
     let rs = all_ranges(k);
     let mut terms = vec![];
